@@ -132,6 +132,7 @@ func copyTree(src, dst string) error {
 type Driver struct {
 	Dir string // directory holding the driver sources (tdir of the contract)
 	Bin string
+	Bins   map[string]string // variant -> binary ("", "trimpath", "deep", "deep-trimpath")
 	GoJSON map[string]string // json.Marshal text of the named Go values, as the driver reports them
 }
 
@@ -177,7 +178,7 @@ func buildDriver(sc *Scratch, name string, flags ...string) (*Driver, error) {
 	if err != nil {
 		return nil, inconclusive("driver build failed (the repository may not compile): %v\n%s", err, out)
 	}
-	d := &Driver{Dir: dir, Bin: bin, GoJSON: map[string]string{}}
+	d := &Driver{Dir: dir, Bin: bin, GoJSON: map[string]string{}, Bins: map[string]string{"": bin}}
 	desc := filepath.Join(dir, "describe.json")
 	dc := exec.Command(bin, "-test.run", "^$")
 	dc.Dir = dir
@@ -206,7 +207,8 @@ type ProcSpec struct {
 	Par     int               // -test.parallel
 	Shuffle string            // -test.shuffle
 	Env     map[string]string // extra
-	Dir     string            // working directory ("" = driver dir)
+	Dir     string            // working directory ("" = the package directory of the binary)
+	Variant string            // driver variant: "", "trimpath", "deep", "deep-trimpath"
 }
 
 func (p *ProcSpec) ciOn() bool { return p.CI == "CI" || p.CI == "GITHUB_ACTIONS" }
@@ -247,8 +249,15 @@ func runDriver(d *Driver, p *ProcSpec, scriptPath, tracePath string, timeout tim
 	}
 	ctx, cancel := context.WithTimeout(context.Background(), timeout)
 	defer cancel()
-	cmd := exec.CommandContext(ctx, d.Bin, args...)
-	cmd.Dir = d.Dir
+	bin := d.Bin
+	if p.Variant != "" {
+		bin = d.Bins[p.Variant]
+		if bin == "" {
+			return nil, inconclusive("driver variant %q was not built", p.Variant)
+		}
+	}
+	cmd := exec.CommandContext(ctx, bin, args...)
+	cmd.Dir = filepath.Dir(bin)
 	if p.Dir != "" {
 		cmd.Dir = p.Dir
 	}
@@ -372,3 +381,38 @@ func parallelDo(n, workers int, f func(i int) error) error {
 }
 
 var errNotImplemented = errors.New("not implemented")
+
+// buildVariants adds the -trimpath build and the two-levels-deep sub-package builds (C11).
+func (d *Driver) buildVariants() error {
+	deep := filepath.Join(d.Dir, "sub", "deep")
+	os.MkdirAll(deep, 0o755)
+	ents, _ := os.ReadDir(d.Dir)
+	for _, e := range ents {
+		if !e.IsDir() && strings.HasSuffix(e.Name(), ".go") {
+			if err := copyFile(filepath.Join(d.Dir, e.Name()), filepath.Join(deep, e.Name())); err != nil {
+				return err
+			}
+		}
+	}
+	type v struct {
+		name, pkg, out string
+		flags          []string
+	}
+	vs := []v{
+		{"trimpath", ".", filepath.Join(d.Dir, "prog_trim.test"), []string{"-trimpath"}},
+		{"deep", "./sub/deep", filepath.Join(deep, "prog_deep.test"), nil},
+		{"deep-trimpath", "./sub/deep", filepath.Join(deep, "prog_deep_trim.test"), []string{"-trimpath"}},
+	}
+	for _, x := range vs {
+		args := append([]string{"test", "-c", "-vet=off", "-o", x.out}, x.flags...)
+		args = append(args, x.pkg)
+		cmd := exec.Command("go", args...)
+		cmd.Dir = d.Dir
+		cmd.Env = goEnv()
+		if out, err := cmd.CombinedOutput(); err != nil {
+			return inconclusive("driver variant %s build failed: %v\n%s", x.name, err, out)
+		}
+		d.Bins[x.name] = x.out
+	}
+	return nil
+}
